@@ -219,4 +219,45 @@ theorem rule_known_fragment_names_iff (s : SchemaD) (fx : Fixes) (d : Doc) :
     rename_i name dirs
     simp [h _ hn name dirs rfl]
 
+def fSingleSub (frs : AL (List Sel)) (fuel : Nat) : Node → Nat
+  | .operation kind _ _ _ sels => if kind == "subscription" && (rootKeys frs fuel sels).length != 1 then 1 else 0
+  | _ => 0
+
+/-- **5.2.3.1 Single root field**: the collected response keys of a subscription's root selection set (through inline
+    fragments and fragment spreads) are exactly one -/
+theorem rule_single_field_subscriptions_iff (s : SchemaD) (fx : Fixes) (d : Doc) :
+    Silent s fx .singleFieldSubscriptions d ↔ Spec.singleFieldSubscriptions d := by
+  have hL := leaveRule_id s fx .singleFieldSubscriptions (by decide)
+  have hc : CFI ⟨s, fx, [.singleFieldSubscriptions]⟩ Node.isDoc
+      (fun st => st.rs.sfsFrags = sfsTable d ∧ st.rs.sfsFuel = sfsBound d)
+      (fSingleSub (sfsTable d) (sfsBound d)) (fun _ => 0) :=
+    cfi_of s fx .singleFieldSubscriptions Node.isDoc (fun rs => rs.sfsFrags = sfsTable d ∧ rs.sfsFuel = sfsBound d) _ _
+      (fun n hn => by cases n <;> simp_all [Node.isTop, Node.isDoc])
+      (fun n ti rs hn hi => by
+        cases n <;> simp_all [enterRule, Node.isDoc, fSingleSub, RS.err]
+        split <;> simp_all)
+      (fun n ti rs _ hi => by rw [hL]; exact ⟨rfl, hi⟩)
+  obtain ⟨st2, hp, he⟩ := document_noskip s fx .singleFieldSubscriptions d hc (by simp [enterRule])
+    (by simp [enterRule])
+  unfold Silent
+  rw [he]
+  simp only [leave, E, List.reverse_cons, List.reverse_nil, List.nil_append, List.foldl_cons, List.foldl_nil, hL]
+  have := hp.2
+  simp only [E] at this
+  rw [this]
+  have h0 : (enterRule s fx .singleFieldSubscriptions (.document d) {} {}).1.errs.length = 0 := by simp [enterRule]
+  rw [h0, Nat.zero_add, total_zero_iff_g0]
+  unfold Spec.singleFieldSubscriptions
+  simp only [nodes, List.mem_cons, forall_eq_or_imp, reduceCtorEq, false_implies, implies_true, true_and]
+  constructor
+  · intro h n hn name vars dirs sels e
+    have := h n hn; subst e
+    simpa [fSingleSub] using this
+  · intro h n hn
+    cases n <;> simp only [fSingleSub]
+    rename_i kind name vars dirs sels
+    by_cases hk : kind = "subscription"
+    · subst hk; have := h _ hn _ _ _ _ rfl; simp [this]
+    · simp [hk]
+
 end PyGql.Props.C06
